@@ -202,6 +202,34 @@ func (st *Store) mk(op Op, s Sort, args []*Term, val *big.Int, name string, p0, 
 	return t
 }
 
+// substitute replaces every occurrence (as a DAG node) of a key of m by its image; the rest of the term is
+// rebuilt structurally (no simplification).
+func (st *Store) substitute(t *Term, m map[*Term]*Term, cache map[*Term]*Term) *Term {
+	if r, ok := m[t]; ok {
+		return r
+	}
+	if len(t.Args) == 0 {
+		return t
+	}
+	if r, ok := cache[t]; ok {
+		return r
+	}
+	changed := false
+	args := make([]*Term, len(t.Args))
+	for i, a := range t.Args {
+		args[i] = st.substitute(a, m, cache)
+		if args[i] != a {
+			changed = true
+		}
+	}
+	r := t
+	if changed {
+		r = st.mk(t.Op, t.S, args, t.Val, t.Name, t.P0, t.P1)
+	}
+	cache[t] = r
+	return r
+}
+
 // ---- constructors ----
 
 func (st *Store) Bool(b bool) *Term {
